@@ -71,14 +71,14 @@ PROPS = {
  "C10": {
   "props_modules": ["Ps3.Props.C10"],
   "streams": [{"name": "c10", "bad_obs": BAD_OBS}],
-  "rule": "encrypted images (8..1100 sectors, also not a whole number of sectors) with random disc keys and region tables: 2..6 or 255 regions, adjacent regions, gap from sector 1, gap up to the last sector, regions/gaps beyond the file, and invalid tables (one region, first not at 0, overlapping, empty); served from PS3ISO with a .dkey (4 spellings); 12 READ_FILE/READ_FILE_CRITICAL per image at region/sector/table borders +-{1,15,16,17,1000,2047,2048} with lengths 0..70000; oracle = reference decryptor on crypto/aes written from the format description",
+  "rule": "encrypted images (8..1100 sectors, also not a whole number of sectors) with random disc keys and region tables: 2..6 or 255 regions, adjacent regions, gap from sector 1, gap up to the last sector, regions/gaps beyond the file, borders at and above 2^31 and up to 2^32-1, and invalid tables (one region, first not at 0, overlapping, empty); served from PS3ISO with a .dkey (4 spellings); 12 READ_FILE/READ_FILE_CRITICAL per image at region/sector/table borders +-{1,15,16,17,1000,2047,2048} with lengths 0..70000; oracle = reference decryptor on crypto/aes written from the format description",
   "assumptions": ["AES-128 itself is not verified: theorems are parametric in the sector cipher D; the executable AES of Base/Aes.lean (FIPS-197/SP800-38A vectors checked at build) is tied to crypto/aes by the differential",
                   "partial trailing sector of a truncated image is left as stored (cannot be decrypted)"] + _CONN_ASSUME,
  },
  "C11": {
   "props_modules": ["Ps3.Props.C11"],
   "streams": [{"name": "c11", "bad_obs": BAD_OBS}],
-  "rule": "the product {PS3ISO,ps3iso,Ps3IsO,GAMES,PS3ISO2} x {.iso,.ISO,.IsO,.bin,.iso.bak,none} x {no key, adjacent, REDKEY, both (different keys), malformed adjacent (+valid REDKEY), malformed REDKEY, short adjacent, directory as key file} x {no, encrypted, decrypted watermark} x lengths {0x1000,0x106f,0x1070,0x1071,0x3000,0x8800} (4320 layouts, nested or not) x 11 reads overlapping 0xF70..0x1070; quick samples 12%, thorough enumerates all; oracle = the harness's own decision table + reference transformation",
+  "rule": "the product {PS3ISO,ps3iso,Ps3IsO,GAMES,PS3ISO2} x {.iso,.ISO,.IsO,.bin,.iso.bak,none} x {no key, adjacent, REDKEY, both (different keys), malformed adjacent (+valid REDKEY), malformed REDKEY, short adjacent, directory as key file, REDKEY being a regular file, 255-byte image name whose key name cannot exist} x {no, encrypted, decrypted watermark} x lengths {0x1000,0x106f,0x1070,0x1071,0x3000,0x8800} (5400 layouts, nested or not) x 11 reads overlapping 0xF70..0x1070; quick samples 12%, thorough enumerates all; oracle = the harness's own decision table + reference transformation",
   "assumptions": ["'any case' = Go strings.ToLower equality"] + _CONN_ASSUME,
  },
  "C20": {
@@ -121,7 +121,7 @@ PROPS = {
  "C13": {
   "props_modules": ["Ps3.Props.C13"],
   "streams": [{"name": "c13"}, {"name": "conn", "bad_obs": BAD_OBS}],
-  "rule": "6 scenarios (plain file, generated image with lazily opened member files, encrypted image with REDKEY lookup, 3k3y image, enumeration + dir-size, upload) x ONE fault (error / short read / bytes-with-error) at every filesystem operation index of the session (recorder under BasePathFs), each judged by the Lean predicate Spec.C13.judge against the fault-free run: handles all released, server still serving, every response equal to the fault-free one, or the failure code, or a correct prefix then close, or still-correct listing data; short reads must change nothing. "
+  "rule": "9 scenarios (plain file, generated image with lazily opened member files, encrypted image with the key under REDKEY / beside the image / in both places (different keys), 3k3y image, CD image whose sector size is probed at open + READ_CD, enumeration + dir-size, upload) x ONE fault (error / short read / bytes-with-error) at every filesystem operation index of the session (recorder under BasePathFs), each judged by the Lean predicate Spec.C13.judge against the fault-free run: handles all released, server still serving, every response equal to the fault-free one, or the failure code, or a correct prefix then close, or still-correct listing data; short reads must change nothing. "
           "Plus every scenario cut at every request index by an abrupt close in the middle of a command (ledger must drain). conn: random sessions, ledger must be empty after each",
   "assumptions": ["the recorder is the ledger of the real code (open/close of every afero.File under the handler)", "goroutine termination is observed through the ledger draining and a fresh-connection probe, not proved",
                   "timeouts and resets of a real TCP connection reach the same exit path (deferred Context.Close) as the in-memory close used here"] + _CONN_ASSUME,
@@ -181,7 +181,7 @@ LEVEL_TEXT = {
         "Tie: op sequences at structural boundaries against the library view; the executable WF check is still evaluated per explored image as a cross-check.",
  "C18": "Theorems: layout (files, sizes, pad area, total) is a function of tree and mode only; a descriptor depends on the clock only through its two 17-byte timestamp fields; the system area depends on the random filler only through its 0x1C0-byte field (not at all without PS3 mode); everything else in the metadata is a function of the layout. "
         "Tie: every image is built again later and concurrently and compared masked.",
- "C10": "Theorems, parametric in the sector cipher: for every table, content, offset and length the view's read equals the slice of the one reference plaintext (sector rule: stored outside gaps, D(stored) for complete sectors in gaps), so any Read/Seek/ReadAt/chunking observes the same bytes; tables are accepted iff 2..255 regions, first at 0, each non-empty, starts not before previous ends; short/huge tables rejected; header clearing zeroes exactly the table. table_roundtrip: a table of up to 255 regions with 32-bit borders written in the disc format and followed by any content is read back exactly (decode . encode = id). "
+ "C10": "Theorems, parametric in the sector cipher: for every table, content, offset and length the view's read equals the slice of the one reference plaintext (sector rule: stored outside gaps, D(stored) for complete sectors in gaps), so any Read/Seek/ReadAt/chunking observes the same bytes; tables are accepted iff 2..255 regions, first at 0, each non-empty, starts not before previous ends; short/huge tables rejected; header clearing zeroes exactly the table. table_roundtrip: a table of up to 255 regions with 32-bit borders written in the disc format and followed by any content is read back exactly (decode . encode = id); clamp_unobservable: the server's clamping of borders to 2^31-1 (int32 sector numbers) changes the gap membership of no sector below 2^31-1. "
         "Tie: differential incl. unaligned reads against a crypto/aes reference decryptor; the Lean AES instance is validated by it.",
  "C11": "Theorems on the FS.OpenFile decision chain: no key lookup unless .iso (any case) below ps3iso (any case); adjacent key wins, REDKEY only as fallback, a malformed/unreadable key fails the open (no fallback); watermark test incl. short files; the 3k3y mask zeroes exactly [0xF70,0x1070) for any read range (pointwise); everything else, directories and write opens get no wrapper. "
         "Tie: the full product of layouts (exhaustive in thorough) against an independent decision table.",
@@ -194,7 +194,7 @@ LEVEL_TEXT = {
  "C12": "Logic proved, runtime observed. Theorems on the multi-connection model: with writing off, for any number of connections and ANY interleaving of their requests, each connection's response stream equals its stream when served alone (induction over the schedule; a step of one connection never touches another's state and leaves the world fixed), hence independence of what others send; the same on a server with writing ENABLED for every schedule of non-mutating requests (open/stat/list/read/dir-size), from the general frame theorem noninterference_of_frame; every connection starts from the empty state; the shared buffer pool never hands one buffer to two connections under any get/put interleaving. "
         "Tie: parallel sessions against the sequential prediction, race detector in thorough.",
  "C13": "Logic proved, runtime observed. Theorems: State.Close releases all three slots whatever they hold; every request keeps at most one handle per slot and a replaced handle is released (slot bookkeeping of OPEN_DIR/OPEN_FILE/CREATE/CLOSEFILE); the judgement predicate accepts the fault-free run, rejects altered bytes and hangs, and a closed connection admits nothing after it; enumeration always terminates (structural recursion over the remaining names). "
-        "Tie: single-fault enumeration over every filesystem operation of 6 scenarios judged by that predicate; ledger after every session and after abrupt closes.",
+        "Tie: single-fault enumeration over every filesystem operation of 9 scenarios (plain, generated image, encrypted with REDKEY key / adjacent key / both keys, 3k3y, CD image with sector-size probe, enumeration, upload) judged by that predicate; ledger after every session and after abrupt closes.",
  "C14": "Kernel-checked theorems over the Lean model of ParseIPRange/Contains: byte-wise comparison is numeric comparison, membership is exactly "
         "'between the bounds' for every 16-byte address; block_denotes: for every 4- or 16-byte address and every prefix length the computed bounds are exactly the documented block "
         "(aligned 2^h addresses, host bits of the base ignored, network and broadcast address removed iff h >= 2) - proved from the byte-level mask arithmetic (AND with the prefix mask floors, OR with its complement fills, last-bit tweaks), "
